@@ -458,6 +458,10 @@ def gen_queries(rng, k, t, tau, nq):
             x = rng.choice(pts)
         elif r < 0.45:
             x = rng.choice([lo, hi])
+        elif r < 0.57:
+            # close to a knot / site but not on it: 1e-7 .. 1e-2 of the domain width away
+            x = rng.choice(pts) + rng.choice([1.0, -1.0]) * (hi - lo) * 10 ** rng.uniform(-7, -2)
+            x = min(max(x, lo), hi)
         elif r < 0.93:
             x = rng.uniform(lo, hi)
         else:
@@ -734,6 +738,9 @@ def gen_basis_cases(ctx):
             x = rng.choice(pts)
         elif r < 0.42:
             x = t[-1]
+        elif r < 0.55:
+            x = rng.choice(pts) + rng.choice([1.0, -1.0]) * (t[-1] - t[0]) * 10 ** rng.uniform(-7, -2)     # close to a knot, not on it
+            x = min(max(x, t[0]), t[-1])
         elif r < 0.9:
             x = rng.uniform(t[0], t[-1])
         else:
@@ -908,7 +915,15 @@ def unit_spline_stage(ctx, n_quick=60, n_thorough=400):
         else:
             cv = [(v, ["c%d" % j], [1.0], [[0.0]]) if rng.random() < 0.5 else (v, [], [], []) for j, v in enumerate(vals)]
         pts = sorted(set(t))
-        pts = pts + [(a + b) / 2 for a, b in zip(pts, pts[1:])][:2]
+        width = pts[-1] - pts[0]
+        near = []
+        for v in pts:
+            for rel in (2e-7, 1e-6, 3e-5, 2e-3):                 # small RELATIVE distances from every knot, inside the domain
+                for sgn in (1.0, -1.0):
+                    y = v + sgn * rel * width
+                    if pts[0] <= y <= pts[-1] and rng.random() < 0.35:
+                        near.append(y)
+        pts = pts + [(a + b) / 2 for a, b in zip(pts, pts[1:])][:2] + near
         qs = []
         for x in pts:
             for m in range(0, k + 1):
